@@ -352,6 +352,14 @@ Definition jkeys (v : json) : list (list N) :=
 Definition jvalues (v : json) : list json :=
   match v with JObj ms => map snd ms | JArr vs => vs | _ => [] end.
 
+(* items joined by a separator (no separator before the first / after the last) *)
+Fixpoint sep_by {A} (sep : list A) (items : list (list A)) : list A :=
+  match items with
+  | [] => []
+  | [x] => x
+  | x :: rest => x ++ sep ++ sep_by sep rest
+  end.
+
 (* ================================================================ theorems *)
 
 (* ---- hex digits ---- *)
